@@ -338,15 +338,18 @@ def wrap_context(rec, context):
     orig_abort = context.enable_task_abort
     orig_is = context.is_task_to_be_skipped
 
+    # both under the recorder's lock: the order of the `interrupt` and `ctx` records is the order of the effects
     def enable():
-        rec.rec("interrupt")
-        return orig_abort()
+        with rec.cv:
+            rec.rec("interrupt")
+            return orig_abort()
 
     def is_skipped(task):
-        r = orig_is(task)
-        k = getattr(rec._local, "in_handle", None)
-        if k is not None:
-            rec.rec("ctx", k, bool(r))
+        with rec.cv:
+            r = orig_is(task)
+            k = getattr(rec._local, "in_handle", None)
+            if k is not None:
+                rec.rec("ctx", k, bool(r))
         return r
     context.enable_task_abort = enable
     context.is_task_to_be_skipped = is_skipped
